@@ -754,7 +754,13 @@ func Run(r *core.Run) {
 		c.fastTmp = d
 		defer os.RemoveAll(d)
 	}
-	c.deadline = time.Now().Add(time.Duration(r.Pick(85, 18*60)) * time.Second)
+	budget := r.Pick(85, 18*60)
+	if b := os.Getenv("C16_BUDGET_SEC"); b != "" {
+		// on an overloaded machine: same work, more wall-clock time
+		fmt.Sscan(b, &budget)
+	}
+	r.Set("dispatch_budget_sec", budget)
+	c.deadline = time.Now().Add(time.Duration(budget) * time.Second)
 	// the bulk of this check is exploration (enumerated and scripted inputs, no coverage feedback); only the
 	// fault model of part (i) is model checking proper.  The weaker level is claimed for the whole.
 	r.Level = "exploration"
@@ -775,19 +781,21 @@ func Run(r *core.Run) {
 	var stems []stem
 	var seeds []seed
 	var scripts []mutScript
-	var pre sync.WaitGroup
-	pre.Add(2)
-	go func() { defer pre.Done(); seeds, scripts = c.mutTLC() }()
+	var pre, preMut sync.WaitGroup
+	pre.Add(1)
+	preMut.Add(1)
+	go func() { defer preMut.Done(); seeds, scripts = c.mutTLC() }()
 	go func() { defer pre.Done(); hdr, stems = c.enumTLC() }()
 	kinds := c.nestFamily(&wg)
 	pre.Wait()
 	if hdr != nil {
 		c.crossCheck(hdr, stems)
-		if kinds != nil && scripts != nil {
-			c.mutDispatch(&wg, seeds, scripts, hdr.Alphabets, kinds)
-		}
 		wg.Add(1)
 		go func() { defer wg.Done(); c.enumFamily(&wg, hdr, stems) }()
+	}
+	preMut.Wait()
+	if hdr != nil && kinds != nil && scripts != nil {
+		c.mutDispatch(&wg, seeds, scripts, hdr.Alphabets, kinds)
 	}
 	// the exhaustive check of the mutation machine for small constants
 	wg.Add(1)
